@@ -22,12 +22,18 @@ int g_out_match;             /* no wrong byte at g_pos so far */
 unsigned g_out_gen;
 
 static int c09_state(int tree, int id) { return C09_STATE(tree, id); }
+/* finished mark of the content written to <tree>/stream.json through stdio: in the runtime unit this is
+ * the relocation copy of the other tree's json (harness/c09_parson.c: the value being serialized) */
+#ifndef C09_JFIN_SRC
+#define C09_JFIN_SRC(tree) g_jfin[1 - (tree)]
+#endif
 static void c09_die_hook(void) { C09_POINT_ASSERT("die()"); }
 
 FILE *fopen(const char *path, const char *mode)
 {
 	CRASH_POINT("fopen");
 	VASSERT(PATH_WF(path) && path[1] != 0, "fopen: path names a stream file");
+	VASSERT(PATH_MINE(path), "fopen: the file is in THIS thread's directory (path formatted from a thread directory carrying the thread's own tid)");
 	int tree = c09_tree(path), id = c09_file(path);
 	int wr = (mode[0] == 'w');
 	if (nondet_bool() || (!wr && c09_state(tree, id) == S_ABSENT)) { g_fsfault++; __CPROVER_errno = nondet_int(); return NULL; }
@@ -41,7 +47,7 @@ FILE *fopen(const char *path, const char *mode)
 		g_out_open = 1; g_out_tree = tree; g_out_id = id; g_out_pos = 0; g_out_match = 1; g_out_err = 0;
 		h->gen = ++g_out_gen;
 		/* the json written through stdio is a copy of the other tree's json (byte-exactness is checked) */
-		if (id == F_JSON) g_jfin[tree] = g_jfin[1 - tree];
+		if (id == F_JSON) g_jfin[tree] = C09_JFIN_SRC(tree);
 	} else {
 		g_in_open = 1; g_in_tree = tree; g_in_id = id; g_in_pos = 0; g_in_err = 0;
 		h->gen = ++g_in_gen;
@@ -120,6 +126,33 @@ int fclose(FILE *f)
 	return 0;
 }
 
+/* fputs: never called by the runtime unit; parson's json_serialize_to_file[_pretty] (real code in
+ * harness/c09_parson.c) hands the serialized text to stdio with ONE fputs.  The text IS the original of the
+ * file being written (g_len / g_obyte of its id); the string given must be that text from its first byte
+ * (the harness object c09_text).  Success: every byte was accepted by stdio (a second fputs on the same
+ * stream makes the length wrong: PARTIAL).  Failure (EOF): error indicator set, an arbitrary prefix
+ * accepted, content not known. */
+char c09_text[8];            /* stands for the serialized text (content abstracted to g_len / g_obyte) */
+int fputs(const char *str, FILE *f)
+{
+	CRASH_POINT("fputs");
+	struct c09_handle *h = (struct c09_handle *) f;
+	VASSERT(h->wr && g_out_open && h->gen == g_out_gen, "fputs on the open output stream");
+	VASSERT(str == c09_text, "fputs is given the serialized text, from its first byte");
+	unsigned long len = g_len[g_out_id];
+	if (nondet_bool()) {
+		unsigned long k = nondet_size_t();
+		__CPROVER_assume(k <= len);
+		g_out_err = 1; g_out_match = 0; g_fsfault++; __CPROVER_errno = nondet_int();
+		g_out_pos += k;
+		return EOF;
+	}
+	g_out_pos += len;
+	int r = nondet_int();
+	__CPROVER_assume(r >= 0);
+	return r;
+}
+
 static int c09_tree_empty(int tree)
 {
 	return c09_state(tree, F_OBS) == S_ABSENT && c09_state(tree, F_JSON) == S_ABSENT && c09_state(tree, F_AUX) == S_ABSENT
@@ -130,6 +163,7 @@ int remove(const char *path)
 {
 	CRASH_POINT("remove");
 	VASSERT(PATH_WF(path), "remove: encoded path");
+	VASSERT(PATH_MINE(path), "remove: a file or the directory of THIS thread");
 	int tree = c09_tree(path), id = c09_file(path);
 	if (nondet_bool()) { g_fsfault++; __CPROVER_errno = nondet_int(); return -1; }
 	if (id == F_NONE) {
@@ -148,6 +182,8 @@ int rmdir(const char *path)
 {
 	CRASH_POINT("rmdir");
 	int tree = c09_tree(path);
+	/* a per-thread path must be this thread's (process-level directories: ovni_proc_fini) */
+	VASSERT(!PATH_THR(path) || PATH_TID(path) == g_fs_tid, "rmdir: a thread directory is THIS thread's");
 	/* only an existing, empty directory can be removed */
 	if (nondet_bool() || path[1] != 0 || !g_dir[tree] || !c09_tree_empty(tree)) {
 		int e = nondet_int();
@@ -182,6 +218,7 @@ static int c09_open(const char *path, int flags, int mode)
 	(void) mode;
 	CRASH_POINT("open");
 	VASSERT(PATH_WF(path) && path[1] != 0, "open: path names a stream file");
+	VASSERT(PATH_MINE(path), "open: the stream file is in THIS thread's directory (formatted with the thread's own tid)");
 	int tree = c09_tree(path), id = c09_file(path);
 	int fd = nondet_int();
 	__CPROVER_assume(fd >= -1);
@@ -200,6 +237,7 @@ DIR *opendir(const char *path)
 {
 	CRASH_POINT("opendir");
 	VASSERT(PATH_WF(path) && path[1] == 0, "opendir: path names a thread directory");
+	VASSERT(PATH_MINE(path), "opendir: the directory of THIS thread");
 	int tree = c09_tree(path);
 	if (nondet_bool() || !g_dir[tree]) { g_fsfault++; __CPROVER_errno = nondet_int(); return NULL; }
 	g_dmask = 0;
@@ -237,12 +275,14 @@ int closedir(DIR *d) { (void) d; CRASH_POINT("closedir"); return nondet_int(); }
 /* ---- parson: serialize the thread metadata to <procdir>/thread.N/stream.json ----
  * parson does fopen("w") / fputs / fclose on the target itself (no temporary + rename),
  * so the old content is gone as soon as the file is opened. */
+#ifndef C09_REAL_PARSON
 JSON_Status json_serialize_to_file_pretty(const JSON_Value *v, const char *path)
 {
 	(void) v;
 	g_store_calls++;
 	CRASH_POINT("json store: before open");
 	VASSERT(PATH_WF(path) && c09_file(path) == F_JSON, "metadata is stored to stream.json");
+	VASSERT(PATH_MINE(path), "metadata is stored in THIS thread's directory (path formatted with the thread's own tid)");
 	VASSERT(!(g_out_open && g_out_id == F_JSON), "no stdio stream open on stream.json during the store");
 	int tree = c09_tree(path);
 	if (nondet_bool()) { g_store_failed = 1; g_fsfault++; return JSONFailure; }   /* serialization or fopen failed */
@@ -263,17 +303,22 @@ JSON_Status json_serialize_to_file_pretty(const JSON_Value *v, const char *path)
 	CRASH_POINT("json store: closed");
 	return JSONSuccess;
 }
+#endif
 
 /* ---- mkpath (src/common.c, outside the unit): abstract image of the contract proved in
  * group mkpath: returns 0 only if the directory exists afterwards ---- */
 int g_mkpath_failed;
+int g_pdir[2];               /* the process directory of the tree exists */
 int mkpath(const char *path, mode_t mode, int is_dir)
 {
 	(void) mode; (void) is_dir;
 	CRASH_POINT("mkpath");
-	VASSERT(PATH_WF(path) && path[1] == 0, "mkpath: path names a thread directory");
+	VASSERT(PATH_WF(path) && path[1] == 0, "mkpath: path names a directory");
+	VASSERT(PATH_THR(path) || PATH_PROC(path), "mkpath: a process-level directory or a thread directory formed from one");
+	VASSERT(!PATH_THR(path) || PATH_TID(path) == g_fs_tid, "mkpath: a thread directory is formatted with the thread's own tid");
 	if (nondet_bool()) { g_mkpath_failed = 1; g_fsfault++; return -1; }
-	g_dir[c09_tree(path)] = 1;
+	if (PATH_THR(path)) g_dir[c09_tree(path)] = 1;
+	else g_pdir[c09_tree(path)] = 1;
 	return 0;
 }
 
